@@ -289,6 +289,10 @@ pub struct Db {
     pub prefixes: Vec<(String, bool, u8)>, // name, long?, value index
     pub units: Vec<(String, u8)>,          // name, value index
     pub base: String,
+    /// derived units `dq<i>x = coef * <name>`: (index into the sorted set of resolvable candidate
+    /// strings, coefficient); the referenced string is one with several readings whenever possible
+    #[serde(default)]
+    pub derived: Vec<(u16, u8)>,
 }
 
 const PRIMES: [u64; 40] = [
@@ -308,8 +312,9 @@ fn db_strategy() -> impl Strategy<Value = Db> {
         proptest::sample::subsequence(NAME_POOL.to_vec(), 5..=25),
         proptest::collection::vec(any::<bool>(), 8),
         any::<u8>(),
+        proptest::collection::vec((any::<u16>(), 2u8..9), 0..6),
     )
-        .prop_map(|(ps, us, longs, rot)| {
+        .prop_map(|(ps, us, longs, rot, derived)| {
             let mut vi = rot % 7;
             let mut next = || {
                 vi += 1;
@@ -318,7 +323,9 @@ fn db_strategy() -> impl Strategy<Value = Db> {
             let prefixes = ps
                 .iter()
                 .enumerate()
-                .map(|(i, p)| (p.to_string(), longs[i % 8], next()))
+                // a long prefix is also a unit of that name: never make it one when a unit of the same
+                // name is generated too (two definitions of one exact name are outside the premise)
+                .map(|(i, p)| (p.to_string(), longs[i % 8] && !us.contains(p), next()))
                 .collect::<Vec<_>>();
             // the base unit is called "u0" (never collides); units take pool names
             let units = us.iter().map(|u| (u.to_string(), next())).collect::<Vec<_>>();
@@ -326,6 +333,7 @@ fn db_strategy() -> impl Strategy<Value = Db> {
                 prefixes,
                 units,
                 base: "u0".into(),
+                derived,
             }
         })
 }
@@ -381,6 +389,81 @@ fn check_db(known: &BTreeSet<String>, db: &Db, st: &mut Stats) -> CaseResult {
             continue; // previous-result names are C15's
         }
         check_name(&env, &n, st).map_err(|e| format!("{} in database:\n{}", e, text))?;
+    }
+    // a name denotes the same thing inside a definition as at the prompt: derived units that
+    // refer to candidate strings (preferring those with several readings) must be stored as
+    // coefficient x what the string denotes when queried
+    if !db.derived.is_empty() {
+        let all: Vec<String> = {
+            let mut v: Vec<String> = vec![];
+            let exact: Vec<String> = env.dump.exact.keys().cloned().collect();
+            for u in &exact {
+                for cand in std::iter::once(u.clone())
+                    .chain(std::iter::once(format!("{}s", u)))
+                    .chain(env.dump.prefixes.iter().flat_map(|(p, _)| vec![format!("{}{}", p, u), format!("{}{}s", p, u)]))
+                {
+                    if cand != "ans" && cand != "ANS" && cand != "_" && env.ctx.lookup(&cand).is_some() {
+                        v.push(cand);
+                    }
+                }
+            }
+            v.sort();
+            v.dedup();
+            v
+        };
+        let ambiguous: Vec<String> = all.iter().filter(|n| {
+                let c = candidates(&env.dump, n);
+                c.exact.is_some() as usize + c.splits.len() + c.plural_exact.is_some() as usize + c.plural_splits.len() >= 2
+            }).cloned().collect();
+        let pool = if ambiguous.is_empty() { &all } else { &ambiguous };
+        if !pool.is_empty() {
+            let mut text2 = text.clone();
+            let mut expect: Vec<(String, String, u8)> = vec![];
+            for (i, (idx, coef)) in db.derived.iter().enumerate() {
+                let r = pool[(*idx as usize * pool.len()) >> 16].clone();
+                let name = format!("dq{}x", i);
+                text2.push_str(&format!("{} {} {}\n", name, coef, r));
+                expect.push((name, r, *coef));
+            }
+            let ctx3 = match catch(|| load(&text2)) {
+                Ok(Ok(c)) => c,
+                Ok(Err(e)) => {
+                    return fail(
+                        known,
+                        st,
+                        "definition-of-resolvable-name-rejected",
+                        &text2,
+                        format!("every referenced name resolves at the prompt, yet loading reports: {}\ndatabase:\n{}", e.lines().take(4).collect::<Vec<_>>().join(" | "), text2),
+                    )
+                }
+                Err(p) => return fail(known, st, &panic_signature(&p), &text2, format!("loading panicked: {}", p)),
+            };
+            for (name, r, coef) in &expect {
+                st.eval();
+                st.class("derived_unit_referring_to_colliding_name");
+                let stored = ctx3.lookup(name);
+                let at_prompt = ctx3.lookup(r);
+                let want = at_prompt.as_ref().and_then(|n| (n * &Number::new(Numeric::from(*coef as i64))));
+                if stored.is_none() || stored != want {
+                    return fail(
+                        known,
+                        st,
+                        "name-denotes-something-else-inside-a-definition",
+                        name,
+                        format!(
+                            "`{} = {} {}` is stored as {:?}, but `{}` denotes {:?} when queried in the same database:\n{}",
+                            name,
+                            coef,
+                            r,
+                            stored.as_ref().map(crate::oracle::regdump::number_text),
+                            r,
+                            at_prompt.as_ref().map(crate::oracle::regdump::number_text),
+                            text2
+                        ),
+                    );
+                }
+            }
+        }
     }
     Ok(())
 }
